@@ -128,6 +128,8 @@ def _external_table():
         'operator.is_': operator.is_, 'operator.is_not': operator.is_not, 'operator.add': operator.add, 'operator.or_': operator.or_,
         'operator.and_': operator.and_, 'operator.contains': operator.contains,
         'functools.reduce': functools.reduce,
+        'unicodedata.bidirectional': __import__('unicodedata').bidirectional, 'unicodedata.category': __import__('unicodedata').category,
+        'warnings.warn': (lambda *a, **k: None),
     }
 
 
@@ -172,7 +174,8 @@ class Raised(Exception):
 
 
 BUILTIN_EXC = {'KeyError', 'IndexError', 'ValueError', 'TypeError', 'AttributeError', 'StopIteration', 'Exception',
-               'NotImplementedError', 'RuntimeError'}
+               'NotImplementedError', 'RuntimeError', 'FutureWarning', 'DeprecationWarning', 'UserWarning', 'Warning', 'OverflowError',
+               'ZeroDivisionError', 'LookupError', 'ArithmeticError', 'UnicodeDecodeError', 'UnicodeError', 'RecursionError'}
 
 
 class Interp(MiniEval):
@@ -222,6 +225,14 @@ class Interp(MiniEval):
                 if isinstance(x, dict):
                     return {norm(k): norm(y) for k, y in x.items()}
                 return x
+            if isinstance(v, (dict, list, set)):
+                # a mutable module-level container is state: one object per interpreted "process" (it may be written to)
+                ck = ('modvalue', mod.name, name)
+                if ck not in self.shared:
+                    self.shared[ck] = norm(v) if not isinstance(v, set) else set(v)
+                    if self.shared[ck] is v:
+                        self.shared[ck] = type(v)(v)
+                return self.shared[ck]
             return norm(v)
         except Exception:  # noqa: BLE001
             pass
@@ -536,10 +547,28 @@ class Interp(MiniEval):
                         return lambda k: k in keys()
             raise Unsupported(f'attribute {attr} of {base!r}')
         if isinstance(base, PkgClass):
-            mq = self.src.find_method(base.qual, attr)
-            if mq:
-                m, fn = self.src.func(mq)
-                return PkgFunc(m, fn, mq.split('.')[1], bound=None)
+            for c in self.src.mro(base.qual):
+                mn, _, cn = c.partition('.')
+                if mn not in self.src.mods or cn not in self.src.mods[mn].classes:
+                    continue
+                if f'{cn}.{attr}' in self.src.mods[mn].functions:
+                    fn = self.src.mods[mn].functions[f'{cn}.{attr}']
+                    decos = [_unparse(d) for d in fn.decorator_list]
+                    # a classmethod read from the class is bound to the class it is read from
+                    return PkgFunc(self.src.mods[mn], fn, cn, bound=(base if 'classmethod' in decos else None))
+                for st in self.src.mods[mn].classes[cn].body:
+                    val = None
+                    if isinstance(st, ast.Assign) and any(isinstance(t, ast.Name) and t.id == attr for t in st.targets):
+                        val = st.value
+                    elif isinstance(st, ast.AnnAssign) and isinstance(st.target, ast.Name) and st.target.id == attr and st.value is not None:
+                        val = st.value
+                    if val is not None:
+                        ck = ('classattr', c, attr)
+                        if ck not in self.shared:
+                            self.shared[ck] = Interp(self.ctx, mn, cn, {}, self.stubs, self.depth + 1, self.shared).ev(val)
+                        return self.shared[ck]
+            if attr == '__name__':
+                return base.qual.split('.')[-1]
             raise Unsupported(f'{base.qual}.{attr}')
         if isinstance(base, Sym):
             return Sym(f'{base.name}.{attr}')
